@@ -21,6 +21,14 @@ package schema
 //@   ensures [copy-of-value] is(value, *Value) ==> iv.ItemType == old(value.(*Value).ItemType) && iv.ItemValue == old(value.(*Value).ItemValue)
 //@   ensures [declared-type-kept] !is(value, *Value) && knownType(old(iv.ItemType)) ==> iv.ItemType == old(iv.ItemType)
 //@   ensures [undeclared-integer] !is(value, *Value) && !knownType(old(iv.ItemType)) && effKind(value) >= 2 && effKind(value) <= 11 ==> iv.ItemType == ItemTypeInteger
+//@   ensures [undeclared-integer-value] !is(value, *Value) && !knownType(old(iv.ItemType)) && effKind(value) >= 2 && effKind(value) <= 6 ==>
+//@             iv.ItemValue == itoa(effVal(value).Int())
+//@   ensures [undeclared-unsigned-value] !is(value, *Value) && !knownType(old(iv.ItemType)) && effKind(value) >= 7 && effKind(value) <= 11 ==>
+//@             iv.ItemValue == itoa(effVal(value).Uint())
+//@   ensures [undeclared-float-value] !is(value, *Value) && !knownType(old(iv.ItemType)) && (effKind(value) == 13 || effKind(value) == 14) ==>
+//@             iv.ItemValue == fmtv(effVal(value).Float())
+//@   ensures [undeclared-bool-value] !is(value, *Value) && !knownType(old(iv.ItemType)) && effKind(value) == 1 ==>
+//@             iv.ItemValue == (effVal(value).Bool() ? "true" : "false")
 //@   ensures [undeclared-bool] !is(value, *Value) && !knownType(old(iv.ItemType)) && effKind(value) == 1 ==> iv.ItemType == ItemTypeBoolean
 //@   ensures [undeclared-float] !is(value, *Value) && !knownType(old(iv.ItemType)) && (effKind(value) == 13 || effKind(value) == 14) ==> iv.ItemType == ItemTypeFloat
 //@   ensures [undeclared-string] !is(value, *Value) && !knownType(old(iv.ItemType)) && effKind(value) == 24 ==> iv.ItemType == ItemTypeString && iv.ItemValue == effVal(value).String()
@@ -43,3 +51,31 @@ package schema
 //@   prop C16
 //@   modifies nothing
 //@   ensures fresh(result) && result.ItemType == i.Type && result.ItemValue == i.Value
+
+// Reading back: the canonical value of an integer / float / bool / string item is the parse of its text
+// (with the assumed strconv round trips this is the stored number).
+//@ func (*Value).ValueFor
+//@   prop C16
+//@   modifies nothing
+//@   ensures [string-as-is] iv.ItemType == ItemTypeString ==> is(result, string) && result.(string) == iv.ItemValue
+//@   ensures [integer-parsed-as-int64] iv.ItemType == ItemTypeInteger ==> is(result, int64) &&
+//@             forall n int :: (- 9223372036854775808) <= n && n <= 9223372036854775807 && iv.ItemValue == itoa(n) ==> result.(int64) == n
+//@   ensures [bool-is-true-literal] iv.ItemType == ItemTypeBoolean ==> is(result, bool) && result.(bool) == (iv.ItemValue == "true")
+//@   ensures [float-parsed-as-float64] iv.ItemType == ItemTypeFloat ==> is(result, float64) &&
+//@             forall x float64 :: iv.ItemValue == fmtv(x) ==> result.(float64) == x
+
+//@ func (*Value).Type
+//@   prop C16
+//@   pure
+//@   modifies nothing
+//@   flag emits none
+//@   ensures result == iv.ItemType
+
+//@ func (*Value).Value
+//@   prop C16
+//@   modifies nothing
+//@   ensures [string-as-is] iv.ItemType == ItemTypeString ==> is(result, string) && result.(string) == iv.ItemValue
+//@   ensures [integer-parsed-as-int64] iv.ItemType == ItemTypeInteger ==> is(result, int64) &&
+//@             forall n int :: (- 9223372036854775808) <= n && n <= 9223372036854775807 && iv.ItemValue == itoa(n) ==> result.(int64) == n
+//@   ensures [float-parsed-as-float64] iv.ItemType == ItemTypeFloat ==> is(result, float64) &&
+//@             forall x float64 :: iv.ItemValue == fmtv(x) ==> result.(float64) == x
